@@ -707,9 +707,30 @@ def selftest_table():
     return ("lexer: corrupted Matches cell is rejected (C10)", n == 1, "%d disagreement(s)" % n)
 
 
+def selftest_hang():
+    """a run of the real lexer that does not finish (recorded as `timeout`) -> C08 must report a hang"""
+    cargo_build_or_die(["lpdrv", "lexdrv", "lexrun"])
+    orig = E.run_drivers_parallel
+
+    def stuck(binary, jobs, wd, tag, procs=8, budget_env=None):
+        out = orig(binary, jobs, wd, tag, procs, budget_env)
+        if tag == "la":
+            k = sorted(out)[0]
+            out[k]["res"][-1] = {"t": [], "e": "timeout", "at": 0}
+        return out
+
+    E.run_drivers_parallel = stuck
+    try:
+        s = analyse(_selftest_pop(), "quick", routes=("a",))
+    finally:
+        E.run_drivers_parallel = orig
+    n = sum(1 for d in s["disagreements"] if d["prop"] == "C08" and "kind=hang" in d["key"])
+    return ("lexer: a string on which the real lexer does not return is reported (C08)", n == 1, "%d disagreement(s)" % n)
+
+
 REGISTRY = {"C08": check_C08, "C09": check_C09, "C10": check_C10, "C11": check_C11}
 REPLAY = {"lexer": replay}
-SELFTESTS = [selftest_expected_value, selftest_real_entries, selftest_verdict, selftest_table]
+SELFTESTS = [selftest_expected_value, selftest_real_entries, selftest_verdict, selftest_table, selftest_hang]
 ENGINES = [{"name": "lexer",
             "path": "tools/eng_lexer.py, tools/c_lexer.py, spec/Regex.tla, spec/Lexer.tla, spec/MCLex.tla, spec/MCLexTab.tla, "
                     "spec/MCOverlap.tla, harness/crates/lexdrv, harness/crates/lexrun, harness/crates/lpdrv",
